@@ -42,10 +42,46 @@ class Proc:
         return self.handle
 
     def tasks(self):
-        return [self.W.task_info(t) for t in self.W.tasks(self.live())]
+        """Task list as a client sees it: the rows of the store (the live object may be evicted at any time)."""
+        W = self.W
+        I = W.I
+        from mirsym.intr_serde import json_to_py
+        coll = I.call_raw("store::store::Store::tasks", [Ptr(W.store.c, 0)], None)
+        q = I.call_raw("store::query::Query::new", [], None)
+        r = I.call_raw("<dyn store::DbCollection<Item = store::data::task::Task> as store::DbCollection>::query", [Ptr(coll.c, 0), Ptr([q], 0)], None)
+        pf = {f[0]: i for i, f in enumerate(I.p.src.struct_fields("PageData"))}
+        names = [f[0] for f in I.p.src.struct_fields("store::data::task::Task")]
+        smap = {"none": "None", "ready": "Ready", "pending": "Pending", "running": "Running", "interrupted": "Interrupt", "completed": "Completed", "submitted": "Submitted",
+                "backed": "Backed", "cancelled": "Cancelled", "error": "Error", "aborted": "Aborted", "skipped": "Skipped", "removed": "Removed"}
+        out = []
+        for row in r.f[0].f[pf["rows"]].a:
+            d = dict(zip(names, row.f))
+            if d["pid"] != self.pid:
+                continue
+            nd = json_to_py(d["node_data"].v) if isinstance(d["node_data"], Ser) else {}
+            content = nd.get("content") or {}
+            kind = list(content.keys())[0] if isinstance(content, dict) and content else str(W.py(d["kind"])).capitalize()
+            body = content.get(kind, {}) if isinstance(content, dict) else {}
+            data = json_to_py(d["data"].v) if isinstance(d["data"], Ser) else {}
+            out.append(dict(pid=self.pid, tid=d["tid"], nid=nd.get("id"), kind=kind, state=smap.get(W.py(d["state"]), W.py(d["state"])), prev=W.py(d["prev"]),
+                            data=data, uses=(body.get("uses") or "") if kind == "Act" else "", timestamp=d["timestamp"], start_time=d["start_time"], end_time=d["end_time"],
+                            level=nd.get("level"), err=_err_of(W, d["err"]), hooks=[]))
+        out.sort(key=lambda t: t["timestamp"])
+        return out
 
     def done(self):
         return [e for e in self.W.events if e[0] in ("complete", "error") and e[1]["pid"] == self.pid]
+
+
+def _err_of(W, e):
+    from mirsym.intr_serde import json_to_py
+    if isinstance(e, Enum) and e.ty == "Option":
+        if e.d != 1:
+            return None
+        e = e.f[0]
+    if isinstance(e, Ser):
+        return json_to_py(e.v)
+    return W.py(e)
 
 
 def summary(W, p):
@@ -106,7 +142,8 @@ class Driver:
         I = self.I
         m = I.model()
         model = {k: str(m.eval(v, model_completion=True)) for k, v in self.sym.items()} if m is not None else {}
-        self.res.violations.append(Violation(self.prop, role, desc, self.name, dict(decisions=list(I.path.taken), log=self.log), model, detail))
+        ev = list(getattr(I.world, "evictions", []) or []) if I.world is not None else []
+        self.res.violations.append(Violation(self.prop, role, desc, self.name, dict(decisions=list(I.path.taken), log=self.log, evictions=ev), model, detail))
 
     def evict(self, W, p):
         """Drop the process from the cache (what moka does under capacity pressure / Cache::uncache)."""
@@ -244,12 +281,12 @@ def reload(I, prop, scen_name, max_evictions, max_paths):
 # --------------------------------------------------------------------------------------------------- C13
 
 
-def isolation_path(I, res, prop, s1, s2, cap, policy):
+def isolation_path(I, res, prop, s1, s2, cap, policy, keep=True):
     d = Driver(I, res, prop, "isolation:%s|%s:cap=%s" % (s1, s2, cap))
     # reference: each process alone
     refs = []
     for sname, tag in ((s1, "A"), (s2, "B")):
-        W0 = d.world()
+        W0 = d.world(keep_processes=keep)
         p0 = d.start(W0, sname, tag)
         W0.drain()
         n = 0
@@ -262,16 +299,17 @@ def isolation_path(I, res, prop, s1, s2, cap, policy):
         refs.append(summary(W0, p0))
     # together, interleaved, small cache
     d.phase = "together"
-    W = d.world(policy=policy, cache_cap=cap)
+    W = d.world(policy=policy, cache_cap=cap, keep_processes=keep)
     p1 = d.start(W, s1, "A", pid="pA")
     p2 = d.start(W, s2, "B", pid="pB")
     W.drain()
     # a second start with a live pid is refused
-    dup = d.start(W, s1, "dup", pid="pA")
-    if not isinstance(dup, Enum) or dup.d != 1:
-        d.viol("duplicate-pid-accepted", "a second start with a live process id was accepted")
-        return
-    W.drain()
+    if keep:
+        dup = d.start(W, s1, "dup", pid="pA")
+        if not isinstance(dup, Enum) or dup.d != 1:
+            d.viol("duplicate-pid-accepted", "a second start with a live process id was accepted")
+            return
+        W.drain()
     procs = [p1, p2]
     n = 0
     while n < 24:
@@ -280,10 +318,6 @@ def isolation_path(I, res, prop, s1, s2, cap, policy):
             break
         n += 1
         # capacity pressure: with more live processes than the cache holds, any of them may have been evicted
-        live = [p for p in procs if W.proc(p.pid) is not None]
-        if cap is not None and len(live) > cap:
-            victim = live[I.path.choose(len(live), "victim")]
-            d.evict(W, victim)
         p, t = cands[I.path.choose(len(cands), "who")] if len(cands) > 1 else cands[0]
         r = d.answer(W, p, t)
         if r is None or r.d != 0:
@@ -291,7 +325,7 @@ def isolation_path(I, res, prop, s1, s2, cap, policy):
             return
     res.witnesses += 1
     for p, ref, sname in ((p1, refs[0], s1), (p2, refs[1], s2)):
-        d.compare(ref, summary(W, p), "together", cause_of(sname) + (":evicted" if any(e[0] == "evict" and e[1] == p.name for e in d.log) else ""))
+        d.compare(ref, summary(W, p), "together", cause_of(sname) + (":evicted" if p.pid in W.evictions else ""))
     # nothing crosses process ids
     for m in W.messages:
         if m["pid"] not in ("pA", "pB"):
@@ -300,8 +334,8 @@ def isolation_path(I, res, prop, s1, s2, cap, policy):
         res.samples.append(dict(pair=(s1, s2), cap=cap, log=d.log[:12]))
 
 
-def isolation(I, prop, s1, s2, cap, policy, max_paths):
-    return explore(I, "isolation:%s|%s:cap=%s:%s" % (s1, s2, cap, policy), lambda I, res: isolation_path(I, res, prop, s1, s2, cap, policy), max_paths=max_paths)
+def isolation(I, prop, s1, s2, cap, policy, max_paths, keep=True):
+    return explore(I, "isolation:%s|%s:cap=%s:%s:keep=%s" % (s1, s2, cap, policy, keep), lambda I, res: isolation_path(I, res, prop, s1, s2, cap, policy, keep), max_paths=max_paths)
 
 
 # --------------------------------------------------------------------------------------------------- replay
@@ -426,14 +460,18 @@ def confirm_isolation(v, s1, s2):
         rej = [r for r in both["results"] if r.get("op") == "action" and not r.get("ok")]
         return bool(rej), dict(rejected=rej[:2])
     comp = v.role.split(":")[1].split("-")[0]
+    if comp not in differ and v.decisions.get("evictions"):
+        # the counterexample depends on which entry moka drops when the cache is over capacity at insert time; the replay
+        # cannot steer that decision on the real engine: reported unconfirmed (see DESIGN.md, C13)
+        return None, dict(differ=differ, unconfirmable="depends on moka's eviction decision at insert", **res)
     return (comp in differ), dict(differ=differ, **res)
 
 
 _isolation_plain = isolation
 
 
-def isolation(I, prop, s1, s2, cap, policy, max_paths):  # noqa: F811
-    res = _isolation_plain(I, prop, s1, s2, cap, policy, max_paths)
+def isolation(I, prop, s1, s2, cap, policy, max_paths, keep=True):  # noqa: F811
+    res = _isolation_plain(I, prop, s1, s2, cap, policy, max_paths, keep)
     seen = {}
     for v in res.violations:
         if v.role not in seen and len(seen) < 4:
